@@ -86,6 +86,11 @@ mod verif_nat {
         }
         let l = n.len;
         let p = n.ptr.as_ptr();
+        // the digit array must be a live allocation of (at least) `len` digits; checked explicitly so
+        // that a violation is one clean FAILURE of `wf` instead of a cascade of pointer checks
+        if l > MAXLEN || !kani::mem::can_dereference(std::ptr::slice_from_raw_parts(p as *const u64, l as usize)) {
+            return [0, 0, 0, 0]; // not wf (even low digit)
+        }
         unsafe {
             [
                 if l > 0 { *p } else { 0 },
@@ -365,7 +370,9 @@ mod verif_nat {
             if let (Some(va), Some(vb)) = (val_rel(&aa, base), val_rel(&ab, base)) {
                 assert!(r == (va == vb));
             }
-            kani::cover!(r && LA == LB);
+            if LA == LB || (LA >= 2 && LB >= 2) {
+                kani::cover!(r); // raw lengths 2 and 3 can denote the same number (zero top digit)
+            }
             kani::cover!(!r && aa.e == ab.e);
         }
     }
@@ -391,9 +398,12 @@ mod verif_nat {
         }
         let base = if aa.e < ab.e { aa.e } else { ab.e };
         let (va, vb) = (val_rel(&aa, base), val_rel(&ab, base));
-        let ok = va.is_some() && vb.is_some();
-        kani::cover!(ok && aa.e > ab.e + 40);
-        kani::cover!(ok && aa.e + 40 < ab.e);
+        // 0 <=> 0 is checked on its own in `cmp_zero_zero` (it fails on the real code, debug builds)
+        let ok = va.is_some() && vb.is_some() && !(is_zero(&aa) && is_zero(&ab));
+        kani::cover!(ok && is_zero(&aa));
+        kani::cover!(ok && is_zero(&ab));
+        kani::cover!(ok && aa.e as u128 > ab.e as u128 + 40);
+        kani::cover!(ok && (aa.e as u128) + 40 < ab.e as u128);
         kani::cover!(ok && aa.e == ab.e);
         kani::assume(ok);
         let want = va.unwrap().cmp(&vb.unwrap());
@@ -418,13 +428,21 @@ mod verif_nat {
         assert!(b.partial_cmp(&a) == Some(Ordering::Less));
         assert!(a != b);
     }
+    /// 0 <=> 0 is Equal (and must not panic)
+    #[kani::proof]
+    #[kani::unwind(34)]
+    fn cmp_zero_zero() {
+        let (a, b) = (Natural::ZERO, Natural::from(0u32));
+        assert!(a.partial_cmp(&b) == Some(Ordering::Equal));
+        assert!(a <= b && a >= b && !(a < b));
+    }
     macro_rules! cmp_h {
         ($($name:ident, $far:ident: $la:literal, $lb:literal;)*) => {$(
             #[kani::proof]
-            #[kani::unwind(6)]
+            #[kani::unwind(34)]
             fn $name() { check_cmp::<$la, $lb>() }
             #[kani::proof]
-            #[kani::unwind(6)]
+            #[kani::unwind(34)]
             fn $far() { check_cmp_far::<$la, $lb>() }
         )*};
     }
